@@ -6,7 +6,13 @@ the executable model Pygom/Stoch.lean, for every model shape and every draw list
 Tie: the real solve_stochast(T, 2, exact=, full_output=True) is run with every numpy draw and every
 evaluator call recorded; each loop iteration is replayed through the Lean driver from the OBSERVED
 pre-state (so float rounding cannot accumulate) and post-state, counts, dt, tau, success and branch are compared.
-Direct oracle (no Lean): the property itself on the returned arrays.
+Direct oracle (no Lean): the property itself on the returned arrays, judged against the HARNESS'S OWN copy of the initial
+state (never the array that was handed to pygom).
+
+History and input form.  In the Lean model a path is a pure function of (configuration in force, x0, t0, horizon, draws):
+`path_start` holds for every call, `runMany_all_start` for each of n successive paths, `exact_ignores_tau_config` says the
+exact algorithm does not read pre_tau / epsilon.  The sessions of stoch_common.run_session probe the same on the real code
+(several calls on one instance, left-over pre_tau / epsilon, every form of x0 / t0 / horizon, sibling instances, kept arrays).
 """
 import random
 
@@ -16,15 +22,28 @@ from .. import leanio
 from . import stoch_common as SC
 
 PROP = "C04"
-LEAN = {"module": "Pygom.Props.C04",
-        "required": ["Pygom.C04.path_start", "Pygom.C04.path_times_increasing", "Pygom.C04.adaptiveTau_pos",
+LEAN = {"module": "Pygom.Props.C04", "extra_modules": ["Pygom.Props.C04Seq"],
+        "required": ["Pygom.C04.runMany_all_start", "Pygom.C04.exact_ignores_tau_config", "Pygom.C04.exact_steps_one_event_any_tau_config",
+                     "Pygom.C04.path_start", "Pygom.C04.path_times_increasing", "Pygom.C04.adaptiveTau_pos",
                      "Pygom.C04.path_counts", "Pygom.C04.path_increment", "Pygom.C04.path_exit",
                      "Pygom.C04.path_exit_partial"]}
-BUDGET = {"quick": {"models": 120}, "thorough": {"models": 1000, "max_steps": 3000, "steps": [40, 150, 600, 2500]}}
+BUDGET = {"quick": {"models": 120, "sessions": 160},
+          "thorough": {"models": 1000, "sessions": 900, "max_steps": 3000, "steps": [40, 150, 600, 2500], "session_steps": [40, 150, 600]}}
 RULE = ("bounded-rate event models from the shared generator (1-5 states incl. range-style names, 1-5 events of 1-3 T/B/D "
         "transitions, integer magnitudes 1-3, linear/mass-action/saturating/exponential autonomous rates, derived parameters, "
-        "every API route; 25% single-state or single-event; 10% of tau runs carry explicit ODE terms), integer initial states, "
-        "x {exact, adaptive tau, fixed tau} x 2 paths each, scalar or one-element-list horizon, step cap; "
+        "every API route; 25% single-state or single-event; 10% of tau runs carry explicit ODE terms), integer initial states 0-30 "
+        "(1 model in 8: up to 400, half of those handed over as int32), "
+        "x {exact, adaptive tau, fixed tau} x 2 paths each, step cap; the initial state is handed over as int / int32 / float64 ndarray, "
+        "list or tuple of ints or floats (a bare number for one-state models), the initial time as numpy float64 / int64 / float32 "
+        "(Python float / int: rejected by the unchanged pygom, tagged), the horizon as float, int, numpy scalar, one-element list "
+        "or tuple; plus SESSIONS on one instance: 3-5 calls (exact and tau-leap, 1-3 paths, scalar horizons and list / tuple / array "
+        "grids of float or int dtype, also starting after t0 or extending past extinction) with pre_tau / epsilon left over from "
+        "earlier calls, initial values re-assigned in another form or with other values (initial_values or initial_state + "
+        "initial_time), parameters changed and restored, a deep copy of the configured instance taking over, a sibling instance (same or another definition) simulated in between, the first call repeated at the end "
+        "and the last call repeated on a freshly built instance; every returned array is kept and compared again at the end, "
+        "the caller's arrays and model.initial_state are compared with the harness's own copies after every call; "
+        "side effects the pure model excludes but the property does not state (caller's objects or model.initial_state written to, a "
+        "repeated call or a fresh instance not reproducing a call) are tags and broken correspondence, never violations; "
         "a case is non-trivial when some path has >= 5 accepted steps")
 ASSUMPTIONS = ["exponential variates are positive and fixed pre_tau is positive (hypotheses of path_times_increasing)",
                "termination in finitely many steps is a probability-one statement about the draw stream, not proved (path_exit_partial)",
@@ -34,14 +53,23 @@ TRUSTED = ["harness generator and tracer (numpy.random / evaluator / _jump wrapp
            "numpy's generator produces the variates (their law is C05/C16's concern)"]
 
 
+def _forms(r, base, sim, *, session=False):
+    nS = len(base["x0"])
+    sim["x0_form"] = r.choice([f for f in SC.X0_FORMS if f != "scalar" or nS == 1])
+    if base.get("large") and r.random() < 0.5:
+        sim["x0_form"] = "arr_i32"          # populations of hundreds in a 32-bit array: products of three of them pass 2^31
+    sim["t0_form"] = r.choice(["np_f64"] * 10 + ["np_i64"] * 4 + ["np_f32"] * 4 + ([] if session else ["py_float", "py_int"]))
+
+
 def make_cases(rng, tier, budget):
     cases = []
-    i = 0
     while len(cases) < 3 * budget["models"]:
         r = random.Random(rng.getrandbits(64))
-        base = SC.gen_sim_case(r, max_x0=30, ode_share=0.0)
+        large = r.random() < 0.12                 # 1 model in 8 with populations up to 400 (rates stay bounded: smaller parameters)
+        base = SC.gen_sim_case(r, max_x0=400 if large else 30, ode_share=0.0)
         if base is None:
             continue
+        base["large"] = large
         for mode in ("exact", "tau_adaptive", "tau_fixed"):
             b = base
             if mode != "exact" and r.random() < 0.1:
@@ -52,86 +80,115 @@ def make_cases(rng, tier, budget):
                         break
             c = dict(b)
             c["sim"] = SC.sim_settings(r, b, mode, steps=budget.get("steps"))
-            c["sim"]["horizon_kind"] = r.choice(["float", "float", "list1", "int"])
-            if c["sim"]["horizon_kind"] == "int":
-                c["sim"]["T"] = float(max(1, int(np.ceil(c["sim"]["T"]))))
+            c["sim"]["time"] = SC.gen_scalar_time(r, c["sim"]["T"])
+            c["sim"]["T"] = c["sim"]["time"]["values"][0]
+            _forms(r, b, c["sim"])
             c["max_steps"] = budget.get("max_steps", SC.MAX_STEPS)
             cases.append(c)
-        i += 1
+    n = 0
+    while n < budget.get("sessions", 0):
+        r = random.Random(rng.getrandbits(64))
+        large = r.random() < 0.12
+        base = SC.gen_sim_case(r, max_x0=400 if large else 30, ode_share=0.0)
+        sib = SC.gen_sim_case(r, max_x0=30, ode_share=0.0)
+        if base is None:
+            continue
+        base["large"] = large
+        c = dict(base)
+        c["sim"] = SC.sim_settings(r, base, r.choice(["exact", "tau_adaptive", "tau_fixed"]), steps=budget.get("session_steps", budget.get("steps")))
+        _forms(r, base, c["sim"], session=True)
+        c["session"] = SC.gen_session(r, base, c["sim"], grid_share=0.3, sibling_base=sib)
+        c["max_steps"] = budget.get("max_steps", SC.MAX_STEPS)
+        cases.append(c)
+        n += 1
     return cases
 
 
 def search_cases(rng, tier, budget):
-    return make_cases(rng, tier, {"models": budget["models"] * 3, **{k: v for k, v in budget.items() if k != "models"}})
-
-
-def horizon_arg(sim):
-    k = sim.get("horizon_kind", "float")
-    if k == "list1":
-        return [sim["T"]]
-    if k == "int":
-        return int(sim["T"])
-    return sim["T"]
+    return make_cases(rng, tier, {**budget, "models": budget["models"] * 3, "sessions": budget.get("sessions", 0) * 3})
 
 
 def run_case(case):
-    spec, meta, sim = case["spec"], case["meta"], case["sim"]
+    spec, meta = case["spec"], case["meta"]
     tags, mism, viol = [], [], []
-    exact = sim["mode"] == "exact"
-    model = SC.build_model(case)
     lims = SC.declared_limits(spec)
     nS, nE = len(meta["states"]), len(meta["procs"])
-    tags += ["mode:" + sim["mode"], "nS=%d" % nS, "nE=%d" % nE, "horizon:" + sim.get("horizon_kind", "float")]
+    tags += ["nS=%d" % nS, "nE=%d" % nE]
     if nS == 1: tags.append("single_state")
     if nE == 1: tags.append("single_event")
     if case.get("has_ode"): tags.append("has_ode")
+    if case.get("large"): tags.append("large_population")
     if any(tr["mag"] != ["num", "1"] for p in meta["procs"] for tr in p["transitions"]): tags.append("magnitude>1")
     if any(len(p["transitions"]) > 1 for p in meta["procs"]): tags.append("multi_transition_event")
     for k in set(meta["kinds"]): tags.append("rate:" + k)
-
-    lr = SC.lean_lims(spec)
-    sl = getattr(model, "_state_lims", None)
-    if sl is not None and [list(l) for l in sl] != lr["lims"]:
-        mism.append({"what": "state_lims", "detail": "python _state_lims %s lean %s" % (sl, lr["lims"])})
-
-    harg = horizon_arg(sim)
-    ta = leanio.driver().call({"op": "time_arg", "kind": "list" if isinstance(harg, list) else "number",
-                               "values": [SC.q(sim["T"])]})
-    tr = SC.traced_run(model, harg, exact, sim["np_seed"], iterations=2, max_steps=case.get("max_steps", SC.MAX_STEPS))
     shape = "nS=%s,nE=%s" % ("1" if nS == 1 else "n", "1" if nE == 1 else "n")
-    if tr.error is not None and SC.unbounded_adaptive_tau(tr, sim):
-        viol.append({"what": "solve_stochast raised ValueError('lam value too large'): the adaptive tau of a state where no propensity "
-                             "changes appreciably is astronomically large and rate*tau overflows the Poisson sampler",
-                     "signature": "C04:raise:ValueError:tau_adaptive:lam-too-large:tau>1e15",
-                     "detail": "x0=%s params=%s T=%r" % (case["x0"], case["params"], sim["T"])})
-        return {"nontrivial": False, "mismatches": mism, "violations": viol, "tags": tags + ["raised:unbounded-adaptive-tau"]}
-    if tr.error is not None:
-        viol.append({"what": "solve_stochast raised %s: %s" % (type(tr.error).__name__, str(tr.error)[:200]),
-                     "signature": "C04:raise:%s:%s:%s" % (type(tr.error).__name__, sim["mode"].split("_")[0], shape),
-                     "detail": "x0=%s params=%s T=%r" % (case["x0"], case["params"], sim["T"])})
-        return {"nontrivial": False, "mismatches": mism, "violations": viol, "tags": tags + ["raised"]}
-    Xs, Js, Ts = tr.result
-    if ta.get("err") or ta.get("grid") is not None or isinstance(Ts, np.ndarray):
-        mism.append({"what": "time_arg", "detail": "lean %s ; python returned times of type %s" % (ta, type(Ts).__name__)})
-    accepted = 0
-    for p in range(len(Xs)):
-        jr = tr.jumps[p]
-        X, J, T = np.array(Xs[p], float), np.array(Js[p]), np.array(Ts[p], float)
-        if J.ndim == 1:
-            J = J.reshape(0, nE)
-        if not (np.array_equal(X, jr["X"]) and np.array_equal(T, jr["T"])):
-            mism.append({"what": "raw-output", "detail": "solve_stochast(scalar) does not return what _jump produced"})
-        if abs(jr["finalT"] - float(sim["T"])) > 0 or (not ta.get("err") and SC.fr(ta["final_t"]) != SC.fr(SC.q(sim["T"]))):
-            mism.append({"what": "time_arg:finalT", "detail": "_jump got finalT=%r, horizon %r, lean %s" % (jr["finalT"], sim["T"], ta)})
-        its = SC.segment(tr.log[jr["log"][0]:jr["log"][1]], exact)
-        jr["J"] = J
-        st = SC.tie_steps(model, case, jr, its, lr["lims"], mism, tags)
-        SC.oracle_c04(model, case, X, J, T, exact, float(sim["T"]), jr["truncated"], its, lims, tr.evaluators, viol)
-        accepted = max(accepted, len(T) - 1)
-        if jr["truncated"]: tags.append("truncated")
-        if st["stop"]: tags.append("stop:" + st["stop"])
-        elif not jr["truncated"]: tags.append("exit:horizon")
-        if st["rejected_tau"]: tags.append("tau_rejected")
-        if st["retries_ok"]: tags.append("retry_accepted")
-    return {"nontrivial": accepted >= 5, "mismatches": mism, "violations": viol, "tags": tags,
-            "sample": {"spec": spec, "x0": case["x0"], "params": case["params"], "sim": sim, "accepted_steps": accepted}}
+    state = {"accepted": 0, "lr": None}
+
+    def judge(call, model):
+        sim, exact, tr = call.sim, call.exact, call.tr
+        tags.append("mode:" + sim["mode"])
+        if state["lr"] is None:
+            state["lr"] = SC.lean_lims(spec)
+            sl = getattr(model, "_state_lims", None)
+            if sl is not None and [list(l) for l in sl] != state["lr"]["lims"]:
+                mism.append({"what": "state_lims", "detail": "python _state_lims %s lean %s" % (sl, state["lr"]["lims"])})
+        lr = state["lr"]
+        ta = leanio.driver().call({"op": "time_arg", "kind": SC.lean_time_kind(call.ts), "values": [SC.q(g) for g in call.ts["values"]]})
+        if tr.error is not None and SC.unbounded_adaptive_tau(tr, sim):
+            viol.append({"what": "solve_stochast raised ValueError('lam value too large'): the adaptive tau of a state where no propensity "
+                                 "changes appreciably is astronomically large and rate*tau overflows the Poisson sampler",
+                         "signature": "C04:raise:ValueError:tau_adaptive:lam-too-large:tau>1e15",
+                         "detail": "x0=%s params=%s T=%r" % (call.x0, case["params"], sim["T"])})
+            tags.append("raised:unbounded-adaptive-tau")
+            return False
+        if tr.error is not None:
+            cause = shape
+            if sim["x0_form"] in SC.NARROW_INT_FORMS and SC.narrow_int_overflow(tr, call.x0, sim["t0"]):
+                cause = "narrow-int-x0-overflow"      # the evaluators were given the caller's int32 state: products wrapped around
+            viol.append({"what": "solve_stochast raised %s: %s" % (type(tr.error).__name__, str(tr.error)[:200]),
+                         "signature": "C04:raise:%s:%s:%s" % (type(tr.error).__name__, sim["mode"].split("_")[0], cause),
+                         "detail": "x0=%s (%s) t0 form %s params=%s time=%s op %d" % (call.x0, sim["x0_form"], sim["t0_form"], case["params"], call.ts, call.index)})
+            tags.append("raised")
+            return False
+        Xs, Js, Ts = tr.result
+        if ta.get("err") or (ta.get("grid") is not None) != call.is_grid or isinstance(Ts, np.ndarray) != call.is_grid:
+            mism.append({"what": "time_arg", "detail": "lean %s ; python returned times of type %s for %s" % (ta, type(Ts).__name__, call.ts)})
+        if len(Xs) != sim["iterations"] or len(tr.jumps) != sim["iterations"]:
+            viol.append({"what": "not one path per requested iteration", "signature": "C04:paths-count:%s" % sim["mode"].split("_")[0],
+                         "detail": "%d paths returned, %d _jump calls, %d iterations requested" % (len(Xs), len(tr.jumps), sim["iterations"])})
+            return False
+        for p in range(len(Xs)):
+            jr = tr.jumps[p]
+            if call.is_grid:
+                # C04 is about the raw path: judged on what _jump returned (rows and interval counts are C15's)
+                X, J, T = np.array(jr["X"], float), np.array(jr["J"]), np.array(jr["T"], float)
+            else:
+                X, J, T = np.array(Xs[p], float), np.array(Js[p]), np.array(Ts[p], float)
+            if J.ndim == 1:
+                J = J.reshape(0, nE)
+            if not call.is_grid and not (np.array_equal(X, jr["X"]) and np.array_equal(T, jr["T"])):
+                mism.append({"what": "raw-output", "detail": "solve_stochast(scalar) does not return what _jump produced"})
+            if abs(jr["finalT"] - float(sim["T"])) > 0 or (not ta.get("err") and SC.fr(ta["final_t"]) != SC.fr(SC.q(sim["T"]))):
+                mism.append({"what": "time_arg:finalT", "detail": "_jump got finalT=%r, horizon %r, lean %s" % (jr["finalT"], sim["T"], ta)})
+            its = SC.segment(tr.log[jr["log"][0]:jr["log"][1]], exact)
+            jr["J"] = J
+            try:
+                st = SC.tie_steps(model, call.case, jr, its, lr["lims"], mism, tags)
+            except (KeyError, IndexError, ValueError) as exc:     # a recorded stream that does not have the modelled structure at all
+                mism.append({"what": "trace:unparsed", "detail": "%s: %s" % (type(exc).__name__, exc)})
+                st = {"stop": None, "rejected_tau": 0, "retries_ok": 0}
+            extra = ":leftover-tau-config" if (call.leftover and sim["pre_tau"] is not None) else ""
+            SC.oracle_c04(model, call.case, X, J, T, exact, float(sim["T"]), jr["truncated"], its, lims, tr.evaluators, viol,
+                          sig_extra=extra, where="call at op %d, path %d, x0 handed over as %s" % (call.index, p, sim["x0_form"]), dT=jr["dT"])
+            state["accepted"] = max(state["accepted"], len(T) - 1)
+            if jr["truncated"]: tags.append("truncated")
+            if st["stop"]: tags.append("stop:" + st["stop"])
+            elif not jr["truncated"]: tags.append("exit:horizon")
+            if st["rejected_tau"]: tags.append("tau_rejected")
+            if st["retries_ok"]: tags.append("retry_accepted")
+        return True
+
+    SC.run_session(case, judge, "C04", tags, mism, viol, max_steps=case.get("max_steps", SC.MAX_STEPS))
+    return {"nontrivial": state["accepted"] >= 5, "mismatches": mism, "violations": viol, "tags": tags,
+            "sample": {"spec": spec, "x0": case["x0"], "params": case["params"], "sim": case["sim"], "session": case.get("session"),
+                       "accepted_steps": state["accepted"]}}
